@@ -787,3 +787,44 @@ func unspill(ret *ssa.Return, i int) ssa.Value {
 	}
 	return v
 }
+
+// ifaceReach is staticReach that also follows calls through interfaces of the module to the methods of every module
+// type implementing the interface (class-hierarchy resolution restricted to the module).
+func (c *Ctx) ifaceReach(roots []*ssa.Function, pkgSuffix string) map[*ssa.Function]bool {
+	seen := map[*ssa.Function]bool{}
+	work := append([]*ssa.Function(nil), roots...)
+	for len(work) > 0 {
+		f := work[len(work)-1]
+		work = work[:len(work)-1]
+		if f == nil || seen[f] || f.Blocks == nil {
+			continue
+		}
+		if pkgSuffix != "" && (f.Pkg == nil || !strings.HasSuffix(f.Pkg.Pkg.Path(), pkgSuffix)) {
+			if f.Parent() == nil {
+				continue
+			}
+		}
+		seen[f] = true
+		forEachInstr(f, true, func(_ *ssa.Function, in ssa.Instruction) {
+			ci, ok := in.(ssa.CallInstruction)
+			if !ok {
+				return
+			}
+			cc := ci.Common()
+			if callee := cc.StaticCallee(); callee != nil {
+				work = append(work, callee)
+				return
+			}
+			if cc.IsInvoke() {
+				if iface, ok := cc.Value.Type().Underlying().(*types.Interface); ok {
+					for _, t := range c.implementers(iface, true) {
+						if m := c.methodOf(t, cc.Method.Name()); m != nil {
+							work = append(work, m)
+						}
+					}
+				}
+			}
+		})
+	}
+	return seen
+}
